@@ -442,6 +442,12 @@ add('C02','r12-benign-regexp-source-by-sprintf',SG,'regexp.Compile("(?" + name +
 add('C14','r12-sprintf-suffix-inside-the-group',SG,'regexp.Compile("(?" + name + seg.rule + ")" + tail)','regexp.Compile(fmt.Sprintf("(?%s%s%s)", name, seg.rule, tail))','violation:C14.R8')
 add('C01','r12-sprintf-quoting-verb',SG,'regexp.Compile("(?" + name + seg.rule + ")" + tail)','regexp.Compile(fmt.Sprintf("(?%s%s)%q", name, seg.rule, tail))','violation:C01.R3')
 
+# ---------------- section 37: the requested-header loop written with strings.Cut
+_CUT_OLD = "	for _, v := range strings.Split(h, \",\") {\n		v = strings.TrimSpace(v)\n"
+_CUT_NEW = "	for more := true; more; {\n		var v string\n		v, h, more = strings.Cut(h, \",\")\n		v = strings.TrimSpace(v)\n"
+add('C11','r13-benign-header-loop-by-cut',OP,_CUT_OLD,_CUT_NEW,'silent','the final return true is behind the exit edge of the loop header')
+addm('C11','r13-cut-loop-one-allowed-header-grants-all',[(OP,_CUT_OLD,_CUT_NEW),(OP,"		if !slices.ContainsFunc(c.AllowHeaders, func(h string) bool { return strings.EqualFold(h, v) }) {\n			return false\n		}\n	}\n\n	return true\n}","		if slices.ContainsFunc(c.AllowHeaders, func(h string) bool { return strings.EqualFold(h, v) }) {\n			return true\n		}\n	}\n\n	return false\n}")],'violation:C11.R7')
+
 for pid,entries in C.items():
     os.makedirs(os.path.join(base,pid),exist_ok=True)
     json.dump(entries,open(os.path.join(base,pid,'entries.json'),'w'),indent=1,ensure_ascii=False)
